@@ -108,18 +108,19 @@ def handleKernel (fs : List (String × String)) : String :=
                 return some s!"lane model of the {ext} vertical u8 kernel: row {y} component {i}: model={outRow.getD i 0} got={got[y * rowLen + i]!}"
           return none
         else none
-      -- U8x3 on SSE4.1, horizontal pass, leftover rows: the one-row kernel with its width-dependent loop exits
+      -- U8x3 on SSE4.1, horizontal pass: four-row blocks and leftover rows, both with width-dependent loop exits
       let lane3 : Option String :=
         if p.kind == .u8 ∧ p.n == 3 ∧ ext == "sse4" ∧ pass == "h" ∧ got.size == dw * dh * 3 then Id.run do
           let q := normalize16 c
-          for y in [dh - dh % 4 : dh] do
+          for y in [0:dh] do
             let row : List Int := (List.range (sw * 3)).map fun i => src[(offset + y) * sw * 3 + i]!
             for x in [0:dw] do
               let (start, ks) := q.chunks.getD x (0, #[])
-              let px := SimdU8x3.pixel q.precision sw row start ks.toList
+              let px := if y < dh - dh % 4 then SimdU8x3.pixelR q.precision sw row start ks.toList
+                        else SimdU8x3.pixel q.precision sw row start ks.toList
               for ch in [0:3] do
                 if px.getD ch 0 ≠ got[(y * dw + x) * 3 + ch]! then
-                  return some s!"lane model of the SSE4.1 U8x3 one-row kernel: pixel ({x},{y}) channel {ch}: model={px.getD ch 0} got={got[(y * dw + x) * 3 + ch]!}"
+                  return some s!"lane model of the SSE4.1 U8x3 horizontal kernels: pixel ({x},{y}) channel {ch}: model={px.getD ch 0} got={got[(y * dw + x) * 3 + ch]!}"
           return none
         else none
       -- 16-bit components on SSE4.1, vertical pass: rows cut into chunks of 16, (once) 8 and (once) 4 components
